@@ -4,6 +4,7 @@ import GenlmModel.Model.Shape
 import GenlmModel.Model.Norm
 import GenlmModel.Model.Mask
 import GenlmModel.Model.WfsaOps
+import GenlmModel.Model.WfsaOps2
 import GenlmModel.Model.Cert
 import GenlmModel.Model.Linear
 import GenlmModel.Generated.Semiring
@@ -218,6 +219,46 @@ def opLinear (j : Json) : E Json := do
     ("closure_scc", triplesToJson (closureScc g bl)), ("closure_ref", triplesToJson (closureRef g star)),
     ("solve_left", pairsToJson (solveLeft g bl b)), ("solve_right", pairsToJson (solveRight g bl b))])
 
+def bstateTag : BState Sx Sx → Sx
+  | .inl i => i
+  | .inr (i, a, j, n) => Sx.tup [.s "_bytes", i, a, j, .i n]
+
+def utf8b : Sx → List Sx
+  | .s v => v.toUTF8.toList.map fun b => Sx.i b.toNat
+  | x => [x]
+
+variable [DecidableEq K] [HasInv K] in
+/-- {"op":"wfsa_op2","name":…,"a":wfsa,…} → mirror models of push / trim / trim_vals / epsremove / to_cfg / to_bytes -/
+def opWfsaOp2 (j : Json) : E Json := do
+  let name ← getStr (← getField j "name")
+  let A : WFSA Sx Sx K ← wfsaOfJson (← getField j "a")
+  let inv : K → K := fun x => match HasInv.inv x with | some y => y | none => 0
+  match name with
+  | "push" => do
+      let V ← fun1OfJson (K := K) (← getField j "V")
+      pure (wfsaToJson (A.push inv V))
+  | "trim" => pure (wfsaToJson A.trim)
+  | "trim_vals" => do
+      let f ← fun1OfJson (K := K) (← getField j "fwd")
+      let b ← fun1OfJson (K := K) (← getField j "bwd")
+      pure (wfsaToJson (A.trimVals f b))
+  | "epsremove" => do
+      let S ← fun2OfJson (K := K) (← getField j "S")
+      let outL ← (← getArr (← getField j "out")).mapM fun e => do
+        match ← getArr e with
+        | [a, l] => pure ((← sxOfJson a), (← sxList l))
+        | _ => throw "bad out"
+      let out : Sx → List Sx := fun i => match outL.find? (fun e => e.1 = i) with | some e => e.2 | none => []
+      pure (wfsaToJson (A.epsremove S out))
+  | "to_cfg_right" => do
+      let S ← sxOfJson (← getField j "S")
+      pure (cfgToJson (A.toCfgRight S))
+  | "to_cfg_left" => do
+      let S ← sxOfJson (← getField j "S")
+      pure (cfgToJson (A.toCfgLeft S))
+  | "to_bytes" => pure (wfsaToJson ((A.toBytes utf8b).mapStates bstateTag))
+  | _ => throw s!"unknown wfsa op2 {name}"
+
 def utf8 : Sx → List Sx
   | .s v => v.toUTF8.toList.map fun b => Sx.i b.toNat
   | x => [x]
@@ -285,6 +326,7 @@ def runOpK [DecidableEq K] [HasInv K] [HasStar K] (op : String) (j : Json) : E J
   | "mask" => opMask (K := K) j
   | "pn" => opPn (K := K) j
   | "wfsa_op" => opWfsaOp (K := K) j
+  | "wfsa_op2" => opWfsaOp2 (K := K) j
   | "shape" => opShape (K := K) j
   | "transform" => opTransform (K := K) j
   | "wn" => opWn (K := K) j
